@@ -1088,6 +1088,18 @@ func (e *Env) sliceEq(a TV, sa *State, b TV, sb *State) string {
 // resolveModifies turns a contract's modifies patterns into heap-variable names.
 func (vc *VC) resolveModifies(c *Contract) map[string]bool {
 	out := map[string]bool{}
+	// ghost variables assigned by the contract itself, or named in modifies, may change even in a pure function
+	for _, ga := range c.Epilogue {
+		out[ga.Var] = true
+	}
+	for _, ga := range c.Prologue {
+		out[ga.Var] = true
+	}
+	for _, m := range c.Modifies {
+		if m = strings.Trim(m, "\""); strings.HasPrefix(m, "$") {
+			out[m] = true
+		}
+	}
 	if c.Pure {
 		return out
 	}
@@ -1095,7 +1107,9 @@ func (vc *VC) resolveModifies(c *Contract) map[string]bool {
 		m = strings.Trim(m, "\"")
 		if m == "*" {
 			for h := range vc.P.allWrittenHeaps() {
-				out[h] = true
+				if !strings.HasPrefix(h, "$") { // ghost variables change only where a contract says so
+					out[h] = true
+				}
 			}
 			continue
 		}
